@@ -1,4 +1,5 @@
 """A fixed catalogue of queries covering many expression classes (used by C08, C15, C16, C17)."""
+import os
 import random
 
 
@@ -18,6 +19,8 @@ def queries(dx, pdf, other, npart=4):
         return dx.from_pandas(pdf, npartitions=npart)
     def oth():
         return dx.from_pandas(other, npartitions=2)
+    def unsorted():
+        return dx.from_pandas(pdf.iloc[_PERM], npartitions=npart)
     def big():
         import pandas as pd
         n = 2400
@@ -108,8 +111,53 @@ def queries(dx, pdf, other, npart=4):
         "big-set_index-partition1": lambda: big().set_index("k").partitions[[1]],
         "big-sort_values": lambda: big().sort_values("k"),
         "big-sort_values-partition0": lambda: big().sort_values("k").partitions[[0]],
+        # a source whose index is not sorted (from_pandas sorts a private copy)
+        "unsorted-source": lambda: unsorted(),
+        "unsorted-source-filter": lambda: (lambda d: d[d.a > 3])(unsorted()),
+        "unsorted-source-groupby": lambda: unsorted().groupby("b").a.sum(),
+        "unsorted-source-nosort": lambda: dx.from_pandas(pdf.iloc[_PERM], npartitions=npart, sort=False),
+        "unsorted-series": lambda: dx.from_pandas(pdf.iloc[_PERM].a, npartitions=npart),
+        "from_array": lambda: dx.from_array(pdf[["a", "b"]].values, chunksize=5, columns=["p", "q"]),
+        "from_map": lambda: dx.from_map(_cat_piece, [0, 1, 2], meta=_cat_piece(0).iloc[:0]),
+        "from_dict": lambda: dx.from_dict({"x": [1, 2, 3, 4], "y": [5, 6, 7, 8]}, npartitions=2),
     }
+    pq = os.environ.get("VERIF_CAT_PQ")
+    if pq and os.path.isdir(pq):
+        # single-parameter variants of one parquet read (the dataset is written once by the check, before any interpreter starts)
+        for rd, kw in (("fsspec", {}), ("arrow", {"filesystem": "arrow"})):
+            Q.update({
+                "pq-%s" % rd: lambda kw=kw: dx.read_parquet(pq, **kw),
+                "pq-%s-columns-str" % rd: lambda kw=kw: dx.read_parquet(pq, columns="a", **kw),
+                "pq-%s-columns-list" % rd: lambda kw=kw: dx.read_parquet(pq, columns=["a"], **kw),
+                "pq-%s-columns-ab" % rd: lambda kw=kw: dx.read_parquet(pq, columns=["a", "b"], **kw),
+                "pq-%s-columns-ba" % rd: lambda kw=kw: dx.read_parquet(pq, columns=["b", "a"], **kw),
+                "pq-%s-filters" % rd: lambda kw=kw: dx.read_parquet(pq, filters=[("a", ">", 3)], **kw),
+                "pq-%s-filters-other" % rd: lambda kw=kw: dx.read_parquet(pq, filters=[("a", ">", 4)], **kw),
+                "pq-%s-divisions" % rd: lambda kw=kw: dx.read_parquet(pq, calculate_divisions=True, **kw),
+                "pq-%s-index-false" % rd: lambda kw=kw: dx.read_parquet(pq, index=False, **kw),
+                "pq-%s-projected-op" % rd: lambda kw=kw: dx.read_parquet(pq, **kw)[["a"]] + 1,
+                "pq-%s-getitem-a" % rd: lambda kw=kw: dx.read_parquet(pq, **kw)["a"],
+                "pq-%s-getitem-list-a" % rd: lambda kw=kw: dx.read_parquet(pq, **kw)[["a"]],
+            })
     return Q
+
+
+_PERM = [7, 2, 9, 0, 5, 11, 3, 8, 1, 10, 6, 4, 15, 12, 14, 13]
+
+
+def _cat_piece(i):
+    import pandas as pd
+    return pd.DataFrame({"u": [i, i + 1], "v": [10.0 * i, 10.0 * i + 1]}, index=[2 * i, 2 * i + 1])
+
+
+def write_parquet_dataset(dx, path):
+    """The parquet dataset of the pq-* queries (written once per run by the check that uses the catalogue)."""
+    import shutil
+    shutil.rmtree(path, ignore_errors=True)
+    pdf, _ = tables()
+    dx.from_pandas(pdf[["a", "b", "c"]], npartitions=4).to_parquet(path)
+    os.environ["VERIF_CAT_PQ"] = path
+    return path
 
 
 def build_all(dx, order_seed=0, warmup=0):
